@@ -30,7 +30,9 @@ RULE = ("stream 1 (about 3/4): random abstract linearisations (1-14 atoms; branc
         "pair, ring closed on its own atom, unclosed ring); stream 2 (about 1/4): malformed texts (token soup over the whole "
         "vocabulary incl. / \\ unknown characters, blanks and newlines, unbalanced parentheses, leading digits; single-character "
         "edits of well-formed texts). Corpus: the D1-D5 witnesses, every string pinned in test/test_parse.py, KeyError/IndexError "
-        "witnesses. STATE LEAKS: before about 30% of the ordinary cases one or two state-disturbing texts (reaction bonds, rings / "
+        "witnesses, dots in every position the grammar permits. Dots are drawn for every bond slot (next atom, branch start, "
+        "ring-closing mark; a little more often inside branches; classes dot-in-branch, dot-after-paren-open, dot-after-paren-close, "
+        "dot-after-ring-mark, dot-at-ring-close, ring-across-dot). STATE LEAKS: before about 30% of the ordinary cases one or two state-disturbing texts (reaction bonds, rings / "
         "branches left open, pending bond symbols, texts aborted by SyntaxError/IndexError/KeyError after opening rings) are "
         "parsed first, either through the module-level parse() or on the SAME Parser object as the real call; plus HISTORY cases "
         "(n/8; kind=history): one Parser object (both graph classes, init_aam both, parse() and __call__) parses 2-4 such texts "
@@ -148,6 +150,53 @@ def chain_has_rc(c):
 def chain_natoms(c):
     a, items, nxt = c
     return 1 + sum(chain_natoms(it[2]) for it in items if it[0] == "branch") + (chain_natoms(nxt[1]) if nxt else 0)
+
+
+def dot_shapes(c):
+    """Where the dots of a chain sit (histogram classes; also used by C02): inside a branch, directly after "(", at a
+    ring-closing mark, after a ring mark / after ")", and whether a ring is opened before a dot and closed after it."""
+    tags = set()
+    open_ = {}
+    dotted = set()
+
+    def is_dot(b):
+        return b[0] == "D" or (b[0] == "S" and b[1] == ".")
+
+    def tree_dot(depth):
+        for l in open_:
+            dotted.add(l)
+        if depth > 0:
+            tags.add("dot-in-branch")
+
+    def rec(c, depth):
+        a, items, nxt = c
+        for it in items:
+            if it[0] == "ring":
+                if it[2] in open_:
+                    open_.pop(it[2])
+                    if is_dot(it[1]):
+                        tags.add("dot-at-ring-close")
+                    if it[2] in dotted:
+                        dotted.discard(it[2])
+                        tags.add("ring-across-dot")
+                else:
+                    open_[it[2]] = True
+            else:
+                if is_dot(it[1]):
+                    tags.add("dot-after-paren-open")
+                    tree_dot(depth + 1)
+                rec(it[2], depth + 1)
+        if nxt:
+            if is_dot(nxt[0]):
+                tree_dot(depth)
+                if items:
+                    tags.add("dot-after-ring-mark" if items[-1][0] == "ring" else "dot-after-paren-close")
+            rec(nxt[1], depth)
+        elif depth > 0 and False:
+            pass
+
+    rec(c, 0)
+    return tags
 
 
 def py_wf(c, multi):
@@ -315,11 +364,11 @@ class Gen:
     def num(self):
         return self.rng.choice(["", "", "0", "1", "2", "3", "1", "2", "10", "007", "12"])
 
-    def bond(self, allow_dot=True):
+    def bond(self, allow_dot=True, deep=False):
         r = self.rng.random()
         if r < 0.45:
             return ["I"]
-        if allow_dot and r < 0.53:
+        if allow_dot and r < (0.6 if deep else 0.53):     # dots are a little more frequent inside / at the start of branches
             return ["D"]
         if self.its and r < 0.8:
             return ["R", self.num(), self.num()]
@@ -374,13 +423,13 @@ class Gen:
                     items.append(it)
                     last_ring = True
             elif budget[0] > 0 and depth < 3:
-                b = self.bond()
+                b = self.bond(deep=True)
                 self.pairs.add(frozenset((my, self.natoms)))
                 items.append(["branch", b, self.chain(depth + 1, budget)])
                 last_ring = False
         nxt = None
         if budget[0] > 0 and rng.random() < 0.8:
-            b = self.bond()
+            b = self.bond(deep=depth > 0)
             self.pairs.add(frozenset((my, self.natoms)))
             nxt = [b, self.chain(depth, budget)]
         return [a, items, nxt]
@@ -556,6 +605,10 @@ CORPUS_TEXTS = [
     "RC(=O)OR", "RClR", "C<1,2>C", "C<,1>C", "C<1,>C", "C{group}C", "CR{pattern_1}C", "CC(=C(O)O)C", "C1CC1", "C1CCC1",
     "C1C2C1C2", "c1ccccc1", "Cc1c(C)c(=C)ccc1", "C.O", "C1CC.1", "X", "1CCC1", "HO",
     "C1<2,>C<,2>C<2,>C<0,1>C<2,>C<0,1>1", "C{group}", "{group1,group2}", "C1CC2C=1C2", "C1=C1", "CC(O)=O", "CCC", "CC<2,1>C",
+    # dots wherever the grammar permits: inside a branch, right after "(", after ")" / after a ring mark, at a ring-closing
+    # mark, a ring opened before a dot and closed after it
+    "C(C.C)C", "CC(=O.N)O", "C(.C)C", "C(C)(.C)C", "C(C).C", "C1.C1", "C1CC.O1", "C1.CC1", "C1(.C)CC1", "C(C.C)(C.C)C",
+    "C(C(C.C)C)C", "C(C(.C))C", "C1.C.C1", "C(C1.C)C1", "c1ccccc1.C(C.c)C", "C(.C.C)C", "C<1,2>(C.C)C", "C(C.{g})R", "C(C.1",
     # other documented / odd behaviours
     "CSn1cccc1", "C/C", "C\\C", "C)", "(C1)1", "(C)C", "", "C(", "C12", "C1CC1C1CC1", "C=1CC1", "C<0,0>C", "C<007,10>C",
     "{,}", "{}", "C{a,,b}", "C\nC", "C C", "[C]", "C%10", "C1-1", "C(.C)C", "C.(C)", "C..C", "c1ccccc1-c2ccccc2",
@@ -791,6 +844,8 @@ def classes(c, out):
         yield "its=%s" % chain_has_rc(c["chain"])
         n = chain_natoms(c["chain"])
         yield "atoms=" + ("1" if n == 1 else "2-4" if n <= 4 else "5-8" if n <= 8 else "9+")
+        for tag in sorted(dot_shapes(c["chain"])):
+            yield tag
     else:
         yield "chain=no"
     t = c["text"]
